@@ -134,6 +134,26 @@ class SDPA(pattern.RewriteRuleClassBase):
             _fusion_utils.check_shape(bindings, key, ["B", "Skv", "H", "Dh"])
         _fusion_utils.check_shape(bindings, value, ["B", "H", "Skv", "Dv"])
 
+        # The mask must broadcast INTO the score shape (B, H, S, Skv): a mask that enlarges the batch or head
+        # dimension cannot be expressed by the operators SDPA is lowered to.
+        if mask is not None and mask.shape is not None:
+            score_dims = [bindings["B"], bindings["H"], bindings["S"], bindings["Skv"]]
+            mask_dims = list(mask.shape)
+            if len(mask_dims) > 4:
+                raise MatchFailureError("The mask has rank > 4.", mask)
+            for mask_dim, score_dim in zip(reversed(mask_dims), reversed(score_dims)):
+                if (
+                    isinstance(mask_dim, int)
+                    and isinstance(score_dim, int)
+                    and mask_dim != 1
+                    and mask_dim != score_dim
+                ):
+                    raise MatchFailureError("The mask does not broadcast into the score shape.", mask)
+
+        # Every lowering of the intermediate SDPA op (MHA, GQA, Attention) needs a static number of heads.
+        if not isinstance(bindings["H"], int):
+            raise MatchFailureError("The number of heads is not static.", query)
+
         def get_scale_value(tag_name: str, scale_name: str) -> float:
             scaling_type = match_bindings.get(tag_name, "None")
             if scaling_type == "None":
